@@ -345,7 +345,7 @@ def run_chunk(spec):
     # sampled deeper formulas
     rng = rng_for(spec["seed"], ID, ci, "deep")
     pool = all_e
-    for j in range(400 if tier == "quick" else 6000):
+    for j in range(400 if tier == "quick" else 60000):
         a, b, c = rng.choice(pool), rng.choice(pool), rng.choice(pool)
         op = rng.choice(["and", "or"])
         e = rng.choice([(op, a, ("not", b)), ("not", (op, a, b)), (op, a, b, c)])
